@@ -2265,6 +2265,180 @@ def site_recovery_expired_winners(fns):
     return ob.result(it)
 
 
+# ============================================================================ C18: lock order over every explored path
+LOCK_RE = re.compile(r"(?:RwLock|Mutex)::<[^,>]+, (.+)>::(read|write|lock)$")
+GUARD_RE = re.compile(r"(?:RwLockReadGuard|RwLockWriteGuard|MutexGuard)<'[^,]*, [^,]+, (.+)>")
+
+
+def lock_name(ty):
+    ty = ty.strip()
+    ty = re.sub(r"\b(\w+::)+", "", ty)      # drop module paths
+    return ty
+
+
+def fn_key(f):
+    """`Type::method` for methods (type taken from the self parameter), bare name for free functions"""
+    last = f.name.rsplit("::", 1)[-1]
+    if "{closure" in f.name:
+        return None
+    if "<impl at" in f.name:
+        if not f.args:
+            return None
+        t = f.locals.get(f.args[0], "")
+        m = re.match(r"(?:&(?:'\w+ )?(?:mut )?)?(?:std::sync::Arc<)?([A-Za-z_][\w]*)", t.replace("core::", "").replace("storage::", ""))
+        if not m:
+            return None
+        return "%s::%s" % (m.group(1), last)
+    return last
+
+
+def callee_key(raw):
+    c = mir.norm_callee(raw)
+    m = re.search(r"<impl (\w+)>::(\w+)$", c)
+    if m:
+        return "%s::%s" % (m.group(1), m.group(2))
+    m = re.match(r"(?:[a-z_][\w]*::)*([A-Z]\w*)::(\w+)$", c)
+    if m:
+        return "%s::%s" % (m.group(1), m.group(2))
+    if re.fullmatch(r"(?:[a-z_][\w]*::)*([a-z_]\w*)", c) and not c.startswith(("std::", "core::", "alloc::")):
+        return c.rsplit("::", 1)[-1]
+    return None
+
+
+def lock_summary(fns):
+    """locks a function may acquire on any path, transitively through calls to crate functions (MIR text)"""
+    index = {}
+    for n, f in fns.items():
+        k = fn_key(f)
+        if k:
+            index.setdefault(k, []).append(n)
+    index = {k: v[0] for k, v in index.items() if len(v) == 1}
+    own, calls = {}, {}
+    for n, f in fns.items():
+        acq, cal = set(), set()
+        for m in re.finditer(r"(?:^| = )([^=\n]+?)\((?:copy|move|const|_|\)).*-> \[return", f.text, flags=re.M):
+            callee = m.group(1).strip()
+            lm = LOCK_RE.search(callee)
+            if lm:
+                acq.add(lock_name(lm.group(1)))
+                continue
+            k = callee_key(callee)
+            if k and k in index and index[k] != n:
+                cal.add(index[k])
+        own[n], calls[n] = acq, cal
+    summ = {n: set(a) for n, a in own.items()}
+    changed = True
+    while changed:
+        changed = False
+        for n in fns:
+            for c in calls[n]:
+                add = summ[c] - summ[n]
+                if add:
+                    summ[n] |= add
+                    changed = True
+    return summ, index
+
+
+def site_lock_order(fns):
+    ob = Ob("c18_lock_order", "lock order over every explored path of the functions that nest locks (process_write_batch, failed_batch_outcome, "
+            "cleanup_failed_allocations, process_deletions, flush_pending_deletions, flush_all, flush_worker_shards, force_flush, load_value_from_disk, "
+            "prepare_deferred_record_data, release_allocations): the relation `B is acquired (directly or inside a called crate function) while A is held` is "
+            "ACYCLIC, the allocator lock is never held when the device lock is taken (process_write_batch drops it first; the failure paths go device -> allocator "
+            "only), and the retirement `flush` mutex is outermost", "every MIR path of the listed functions, loops unrolled once; callee lock sets from a transitive "
+            "text summary", None)
+    summ, short = lock_summary(fns)
+    targets = ["::process_write_batch", "::failed_batch_outcome", "::cleanup_failed_allocations", "::process_deletions", "::flush_pending_deletions",
+               "::flush_all", "::flush_worker_shards", "::force_flush", "::load_value_from_disk", "::prepare_deferred_record_data", "::release_allocations"]
+    edges = {}
+    total_paths = 0
+    last_it = None
+    for suffix in targets:
+        f = mir.find(fns, suffix, None)
+        it = Interp(f, loop_bound=1, pure=PURE, max_paths=60000)
+        last_it = it
+        start = None
+        if suffix == "::process_write_batch":
+            # the allocation phase (allocator lock) starts where prepared_writes is tested for emptiness
+            for bb, st in f.blocks.items():
+                if "Vec::<PreparedWrite>::is_empty" in st[-1]:
+                    start = bb
+        for p in (it.run(start=start) if start else it.run()):
+            total_paths += 1
+            ob.paths += 1
+            held = []   # list of (lock name, guard local or None)
+            for e in p.events:
+                if e.kind == "call":
+                    raw = getattr(e, "raw", "")
+                    lm = LOCK_RE.search(raw)
+                    acquired = []
+                    if lm:
+                        acquired = [lock_name(lm.group(1))]
+                        newheld = (acquired[0], "guard")
+                    else:
+                        k = callee_key(raw)
+                        if k and k in short:
+                            acquired = sorted(summ.get(short[k], ()))
+                        newheld = None
+                    for b in acquired:
+                        for a, _g in held:
+                            if a != b:
+                                edges.setdefault((a, b), set()).add(suffix.lstrip(":"))
+                    if newheld:
+                        held.append(newheld)
+                elif e.kind == "drop":
+                    gm = GUARD_RE.search(e.callee)
+                    if gm:
+                        nm = lock_name(gm.group(1))
+                        for k in range(len(held) - 1, -1, -1):
+                            if held[k][0] == nm:
+                                del held[k]
+                                break
+        ob.queries += it.queries
+    # acyclicity
+    nodes = sorted(set(a for a, _ in edges) | set(b for _, b in edges))
+    adj = {n: [b for (a, b) in edges if a == n] for n in nodes}
+    color = {}
+    cyc = []
+
+    def dfs(u, path):
+        color[u] = 1
+        for v in adj.get(u, []):
+            if color.get(v, 0) == 1:
+                cyc.append(path + [u, v])
+            elif color.get(v, 0) == 0:
+                dfs(v, path + [u])
+        color[u] = 2
+    for n in nodes:
+        if color.get(n, 0) == 0:
+            dfs(n, [])
+    ob.vacuous = False
+    ob.queries += 1
+    ob.must_hold(not cyc, "lock-order relation is acyclic" + (": cycle " + " -> ".join(cyc[0]) if cyc else ""))
+    ob.must_hold(("FreeSpaceManager", "DiskIO") not in edges, "the allocator lock is never held while the device lock is acquired"
+                 + (" (%s)" % ",".join(sorted(edges.get(("FreeSpaceManager", "DiskIO"), [])))))
+    ob.must_hold(("DiskIO", "FreeSpaceManager") in edges, "the failure path device -> allocator is present (sanity: nesting is observed)")
+    ob.must_hold(not any(b == "()" for (a, b) in edges), "the retirement flush mutex is never acquired while another lock is held")
+    ob.notes = ["%s -> %s  (%s)" % (a, b, ",".join(sorted(v))) for (a, b), v in sorted(edges.items())]
+    d = ob.result(last_it)
+    d["lock_order_edges"] = ob.notes
+    d["paths"] = total_paths
+    return d
+
+
+def c18(fns, tier, env):
+    out = [site_lock_order(fns), site_coordinator_liveness(fns), site_force_flush(fns)]
+    if tier == "thorough":
+        out.append(scan_progress_only(fns))
+    return finalize(out, env)
+
+
+def scan_progress_only(fns):
+    """C18 shares the scan-iteration run but only cares about progress; kept separate so the id is explicit"""
+    d = scan_iteration(fns)
+    d["id"] = "c18_scan_progress (c03_scan_iteration)"
+    return d
+
+
 # ============================================================================ range queries
 def site_range_query(fns):
     f = mir.find(fns, "::range_query", "src/core/store/range.rs")
